@@ -165,4 +165,13 @@ def generate(rng, tier, mode="default"):
         ops = rand_ops(rng, kind, pool, rng.randint(1, 90), p_add=rng.choice([0.35, 0.5, 0.6, 0.75]))
         out.append([hdr(kind, rng.choice(CAPS + [5, 8, 17, 100] if rng.random() < 0.1 else CAPS), rng.choice(LFS), hk, kk, pool,
                         seed=rng.choice([0, 1, 12345, 0xFFFFFFFF]), mem=rng.choice(["conf", "libc"]))] + ops + ["END"])
+    # the general (murmur) hash with fixed key lengths that are NOT a multiple of 4 (its tail cases), looked up through
+    # a second buffer holding the same key bytes followed by different bytes: the hash must depend on exactly the key
+    for klen in (1, 2, 3, 5, 6, 7, 9, 11):
+        for cap in (2, 16):
+            ks = [5, 9, 12, 200] if klen > 1 else [5, 9, 12, 200 % 256]
+            ops = ["add %d %d" % (k, 100 + j) for j, k in enumerate(ks)]
+            ops += ["get %d" % (k + 1000) for k in ks] + ["has %d" % (ks[0] + 1000), "add %d 77" % (ks[1] + 1000), "size", "remove %d" % (ks[2] + 1000), "get %d" % ks[2], "get_keys", "iter %d" % ks[0]]
+            out.append([hdr("table", cap, "3/4", "general", "blk", ks + [k + 1000 for k in ks]) + " klen=%d" % klen] + ops + ["END"])
+            out.append([hdr("set", cap, "3/4", "general", "blk", ks + [k + 1000 for k in ks]) + " klen=%d" % klen] + ["add %d" % k for k in ks] + ["has %d" % (k + 1000) for k in ks] + ["remove %d" % (ks[0] + 1000), "size", "END"])
     return out
